@@ -548,24 +548,46 @@ func (fw *fileWork) rewriteSyncCall(c *ast.CallExpr) {
 		}
 		return
 	}
-	if len(s.Index()) > 1 {
-		unsupported = append(unsupported, fmt.Sprintf("%s: promoted %s", fset.Position(c.Pos()), full))
-		return
-	}
 	recvT := fw.pi.info.Types[sel.X].Type
 	_, isPtr := recvT.(*types.Pointer)
 	open := helper + "(&("
-	if isPtr {
+	closeX := ")"
+	if len(s.Index()) > 1 {
+		// promoted method of an embedded sync type: spell out the field path
+		t := recvT
+		var names []string
+		okPath := true
+		for _, ix := range s.Index()[:len(s.Index())-1] {
+			if pt, ok := t.Underlying().(*types.Pointer); ok {
+				t = pt.Elem()
+			}
+			st, ok := t.Underlying().(*types.Struct)
+			if !ok || ix >= st.NumFields() {
+				okPath = false
+				break
+			}
+			names = append(names, st.Field(ix).Name())
+			t = st.Field(ix).Type()
+		}
+		if !okPath {
+			unsupported = append(unsupported, fmt.Sprintf("%s: promoted %s", fset.Position(c.Pos()), full))
+			return
+		}
+		closeX = ")." + strings.Join(names, ".")
+		if _, embeddedPtr := t.Underlying().(*types.Pointer); embeddedPtr {
+			open = helper + "(("
+		}
+	} else if isPtr {
 		open = helper + "(("
 	}
 	xs, xe := fw.off(sel.X.Pos()), fw.off(sel.X.End())
 	fw.edits = append(fw.edits, edit{off: xs, end: xs, text: open, prio: 1})
 	if len(c.Args) == 0 {
 		// X.Lock() -> helper(&(X))
-		fw.edits = append(fw.edits, edit{off: xe, end: fw.off(c.Rparen), text: ")", prio: 1})
+		fw.edits = append(fw.edits, edit{off: xe, end: fw.off(c.Rparen), text: closeX, prio: 1})
 	} else {
 		// X.Do(f) -> helper(&(X), f)
-		fw.edits = append(fw.edits, edit{off: xe, end: fw.off(c.Lparen) + 1, text: "), ", prio: 1})
+		fw.edits = append(fw.edits, edit{off: xe, end: fw.off(c.Lparen) + 1, text: closeX + ", ", prio: 1})
 	}
 }
 
@@ -692,36 +714,18 @@ func pkgVars(pi *pkgInfo) []*types.Var {
 
 func genSnapshot(pi *pkgInfo) string {
 	var sb strings.Builder
-	sb.WriteString("// VerifPkgState returns a raw copy of every package-level variable\n// (pointer variables: one level deep), generated from the type-checked scope.\n//\n//go:norace\n//go:noinline\nfunc VerifPkgState() []byte {\n\tvar out []byte\n")
+	sb.WriteString(`// VerifPkgState returns a deep copy of every package-level variable: the raw
+// bytes of scalar data, following pointers, slices, arrays, struct fields, maps
+// (sorted by rendered key) and interfaces up to a fixed depth; values of sync
+// and sync/atomic types are skipped. Generated from the type-checked scope.
+func VerifPkgState() []byte {
+	var out []byte
+`)
 	for _, v := range pkgVars(pi) {
 		if isSyncType(v.Type()) {
 			continue
 		}
-		t := v.Type().Underlying()
-		deref := ""
-		guardOpen, guardClose := "", ""
-		if pt, ok := t.(*types.Pointer); ok {
-			t = pt.Elem().Underlying()
-			deref = "*"
-			guardOpen = fmt.Sprintf("\tif %s != nil {\n", v.Name())
-			guardClose = "\t}\n"
-		}
-		fmt.Fprintf(&sb, "\tout = append(out, %q...)\n", v.Name()+"=")
-		sb.WriteString(guardOpen)
-		if st, ok := t.(*types.Struct); ok && structHasSync(st) {
-			for i := 0; i < st.NumFields(); i++ {
-				f := st.Field(i)
-				if isSyncType(f.Type()) || f.Name() == "_" {
-					continue
-				}
-				fmt.Fprintf(&sb, "\tout = verifRaw(out, unsafe.Pointer(&%s.%s), unsafe.Sizeof(%s.%s))\n", v.Name(), f.Name(), v.Name(), f.Name())
-			}
-		} else if deref == "*" {
-			fmt.Fprintf(&sb, "\tout = verifRaw(out, unsafe.Pointer(%s), unsafe.Sizeof(*%s))\n", v.Name(), v.Name())
-		} else {
-			fmt.Fprintf(&sb, "\tout = verifRaw(out, unsafe.Pointer(&%s), unsafe.Sizeof(%s))\n", v.Name(), v.Name())
-		}
-		sb.WriteString(guardClose)
+		fmt.Fprintf(&sb, "\tout = append(out, %q...)\n\tout = verifDeep(out, reflect.ValueOf(&%s).Elem(), 0)\n", v.Name()+"=", v.Name())
 	}
 	sb.WriteString("\treturn out\n}\n\n")
 	sb.WriteString("// VerifPkgVarNames lists the variables covered by VerifPkgState.\nvar VerifPkgVarNames = []string{")
@@ -729,13 +733,117 @@ func genSnapshot(pi *pkgInfo) string {
 		fmt.Fprintf(&sb, "%q, ", v.Name())
 	}
 	sb.WriteString("}\n\n")
-	sb.WriteString("//go:norace\n//go:noinline\nfunc verifRaw(out []byte, p unsafe.Pointer, n uintptr) []byte {\n\tfor i := uintptr(0); i < n; i++ {\n\t\tout = append(out, *(*byte)(unsafe.Add(p, i)))\n\t}\n\treturn out\n}\n")
+	sb.WriteString(`func verifIsSync(t reflect.Type) bool {
+	p := t.PkgPath()
+	return p == "sync" || p == "sync/atomic"
+}
+
+// verifDeep appends a canonical rendering of v. Unexported fields are read
+// through their address; nothing is ever written.
+func verifDeep(out []byte, v reflect.Value, depth int) []byte {
+	if depth > 6 || !v.IsValid() {
+		return append(out, '?')
+	}
+	t := v.Type()
+	if verifIsSync(t) {
+		return append(out, '~')
+	}
+	if v.CanAddr() && !v.CanInterface() {
+		v = reflect.NewAt(t, unsafe.Pointer(v.UnsafeAddr())).Elem()
+	}
+	switch v.Kind() {
+	case reflect.Ptr:
+		if v.IsNil() {
+			return append(out, 'n')
+		}
+		out = append(out, '*')
+		return verifDeep(out, v.Elem(), depth+1)
+	case reflect.Interface:
+		if v.IsNil() {
+			return append(out, 'n')
+		}
+		out = append(out, 'i')
+		e := v.Elem()
+		if e.Kind() == reflect.Ptr || e.Kind() == reflect.Map || e.Kind() == reflect.Slice {
+			return verifDeep(out, e, depth+1)
+		}
+		return append(out, fmt.Sprintf("%v", e)...)
+	case reflect.Struct:
+		out = append(out, '{')
+		for i := 0; i < v.NumField(); i++ {
+			if t.Field(i).Name == "_" {
+				continue
+			}
+			out = verifDeep(out, v.Field(i), depth+1)
+			out = append(out, ',')
+		}
+		return append(out, '}')
+	case reflect.Array:
+		out = append(out, '[')
+		for i := 0; i < v.Len(); i++ {
+			out = verifDeep(out, v.Index(i), depth+1)
+		}
+		return append(out, ']')
+	case reflect.Slice:
+		if v.IsNil() {
+			return append(out, 'n')
+		}
+		out = append(out, fmt.Sprintf("s%d[", v.Len())...)
+		// the whole backing array up to capacity is state too
+		full := v.Slice3(0, v.Cap(), v.Cap())
+		for i := 0; i < full.Len(); i++ {
+			out = verifDeep(out, full.Index(i), depth+1)
+		}
+		return append(out, ']')
+	case reflect.Map:
+		if v.IsNil() {
+			return append(out, 'n')
+		}
+		type kv struct {
+			k string
+			v reflect.Value
+		}
+		var kvs []kv
+		it := v.MapRange()
+		for it.Next() {
+			kvs = append(kvs, kv{string(verifDeep(nil, it.Key(), depth+1)), it.Value()})
+		}
+		sort.Slice(kvs, func(i, j int) bool { return kvs[i].k < kvs[j].k })
+		out = append(out, fmt.Sprintf("m%d{", len(kvs))...)
+		for _, e := range kvs {
+			out = append(out, e.k...)
+			out = append(out, ':')
+			out = verifDeep(out, e.v, depth+1)
+			out = append(out, ';')
+		}
+		return append(out, '}')
+	case reflect.Func, reflect.Chan, reflect.UnsafePointer:
+		if v.IsNil() {
+			return append(out, 'n')
+		}
+		return append(out, 'f')
+	case reflect.String:
+		return append(out, v.String()...)
+	case reflect.Bool:
+		if v.Bool() {
+			return append(out, 'T')
+		}
+		return append(out, 'F')
+	case reflect.Int, reflect.Int8, reflect.Int16, reflect.Int32, reflect.Int64:
+		return append(strconv.AppendInt(out, v.Int(), 16), '.')
+	case reflect.Uint, reflect.Uint8, reflect.Uint16, reflect.Uint32, reflect.Uint64, reflect.Uintptr:
+		return append(strconv.AppendUint(out, v.Uint(), 16), '.')
+	default:
+		return append(out, fmt.Sprintf("%v.", v)...)
+	}
+}
+`)
 	return sb.String()
 }
 
 func genField(pi *pkgInfo, yields bool) string {
 	var sb strings.Builder
-	sb.WriteString("//go:build verif\n\n// Code generated by /verif/bin/instrument. DO NOT EDIT.\n\npackage field\n\nimport (\n\t\"sync\"\n\t\"unsafe\"\n)\n\n")
+	sb.WriteString("//go:build verif\n\n// Code generated by /verif/bin/instrument. DO NOT EDIT.\n\npackage field\n\nimport (\n\t\"fmt\"\n\t\"reflect\"\n\t\"sort\"\n\t\"strconv\"\n\t\"sync\"\n\t\"unsafe\"\n)\n\n")
 	sb.WriteString(`// Hooks set by the simulator. All nil by default: behaviour is unchanged.
 var (
 	VerifSimYield   func(site int)
@@ -833,7 +941,7 @@ func verifSimRWRUnlock(m *sync.RWMutex) {
 
 func genMain(pi *pkgInfo) string {
 	var sb strings.Builder
-	sb.WriteString("//go:build verif\n\n// Code generated by /verif/bin/instrument. DO NOT EDIT.\n\npackage edwards25519\n\nimport (\n\t\"sync\"\n\t\"unsafe\"\n\n\t\"filippo.io/edwards25519/field\"\n)\n\n")
+	sb.WriteString("//go:build verif\n\n// Code generated by /verif/bin/instrument. DO NOT EDIT.\n\npackage edwards25519\n\nimport (\n\t\"fmt\"\n\t\"reflect\"\n\t\"sort\"\n\t\"strconv\"\n\t\"sync\"\n\t\"unsafe\"\n\n\t\"filippo.io/edwards25519/field\"\n)\n\n")
 	sb.WriteString(`//go:norace
 func verifSimYield(site int) {
 	if h := field.VerifSimYield; h != nil {
